@@ -28,6 +28,34 @@ CLAIMED = {
   "seeded init/set/copy/destroy histories on three live objects against a plain value model, with an allocator seam tracking every block of the module and ASan",
   "Seeded search over call histories with arbitrary strings (NULL, empty, long, unterminated) and 0..4 dimensions; after every call all fields are compared with the model, no heap block may be reachable from two objects, every live block must be reachable, strings must be terminated, and at the end nothing may be live. No schedule/clock is involved (stated in DESIGN §5): the simulator contributes the allocator seam, history machinery, shrinking and replay.",
   "Allocation failure is not injected. Dimension names are NUL-terminated as set_dimension documents. init is applied to fresh storage only."),
+ "C04": ("exploration", "DESIGN.md §4 C04",
+  "deterministic simulation of the whole runtime (real acquire.c, source/filter/sink, channel, HAL, loader, platform.c) with a mock camera/storage driver: seeded schedules, stalls and rings of 2-40 frames; storage history compared frame for frame with what the camera delivered",
+  "Seeded search over configurations (1-2 streams, shapes with every residue mod 8, all sample types, frame counts, write delays, camera pacing, storage and client speeds, ring capacities) and thread schedules; after acquire_stop the packets the recording storage received are parsed and must equal the camera's delivered frames: ids 0..N-1, hardware ids and timestamps, shape, keyed-hash pixel bytes.",
+  "Mock devices stand in for real cameras/storage; ring capacities are shrunk through the channel_new link seam; sync-level preemption granularity (every lock/cond/thread/sleep call, every device call entry and exit, every log call)."),
+ "C05": ("exploration", "DESIGN.md §4 C05",
+  "deterministic simulation: an independent chain walker checks every packet at storage append and at every acquire_map_read (alignment, size field, exact landing, camera-reported shape)",
+  "Same executions as C04/C06 with an inline oracle on every packet boundary the runtime exposes; generated shapes cover all residues of the image size mod 8, wrap positions vary with the ring capacity, the client consumes partially.",
+  "As C04."),
+ "C06": ("exploration", "DESIGN.md §4 C06",
+  "deterministic simulation with a generated monitoring client thread (poll period, partial consumption, long holds, late start, early stop) over sequences of acquisitions ended by stop or abort; frames attributed to camera frames by keyed hash and epoch",
+  "Seeded search over client behaviours and schedules; oracles: consecutive frame ids per acquisition, exact pixels, region unchanged while held, nothing of a finished acquisition delivered to a map invoked after its stop/abort returned, map/unmap by a well-behaved client always succeed. Four genuine findings remain open (known_findings.txt) and are reported as KNOWN-FINDING; any other violation fails the check.",
+  "As C04. The client is well behaved (map then unmap, one thread per stream)."),
+ "C07": ("exploration", "DESIGN.md §4 C07",
+  "deterministic simulation: stop/abort from the client or a third thread at seeded instants (camera waiting for a trigger, ring full, client holding a region, infinite acquisitions); progress-based step budgets and deadlock detection with a wait-for graph; thread table and device logs checked on return; follow-up acquisition judged by C04's oracle",
+  "Bounded liveness by seeded search: a stop/abort that has not returned after 300000 scheduling steps without any frame, append or thread exit is a violation, as is any instant with all threads blocked. On return: no runtime thread alive, camera and storage driver-stopped, state Armed, storage holds a gap-free prefix; the next acquisition must be complete and correct.",
+  "As C04. Client threads coordinate among themselves (no API call overlaps acquire_start/configure)."),
+ "C08": ("exploration", "DESIGN.md §4 C08",
+  "deterministic simulation of generated client programs over the public API (configure, start, start-while-running, trigger, monitor, stop, abort, device switches, shutdown) with a recording driver; history check of its call log",
+  "Seeded search over programs from a stated grammar and over worker schedules; per device instance the recorded calls must form open (set|get|...)* (start ... stop)* close with start only when the HAL state is Armed, one stop per start, appends only between start and stop, exactly one close by shutdown at the latest; Running is only reported while a worker is alive.",
+  "As C04. Re-configuration while Running is outside the grammar."),
+ "C09": ("fault_enumeration", "DESIGN.md §4 C09",
+  "deterministic simulation with device faults attached to a frame or append ordinal (camera get_frame/start, storage append/start) under seeded schedules and ring fill levels, followed by a fault-free acquisition",
+  "Fault ordinals are drawn over every frame index of the generated acquisition, for camera and storage, under seeded schedules and ring capacities down to 2 frames (source blocked on a full ring when the sink dies). Oracles: no append after the storage failure, nothing stored beyond the failing camera frame, camera stopped, stop and abort return, not Running once workers exited, following acquisition complete (C04 oracle).",
+  "As C04. Sampling, not exhaustive enumeration of (ordinal x schedule)."),
+ "C10": ("exploration", "DESIGN.md §4 C10",
+  "deterministic simulation with frame averaging k=2..8 on rings of 2-40 frames (accumulators land on used ring memory); every f32 frame at storage and monitor compared with the exact mean of its window of camera frames",
+  "Seeded search over window sizes, integer sample types, shapes, frame counts, ring capacities and schedules of source, filter and sink; oracle: floor(N/k) complete windows (at most one extra frame), ids of the windows' first frames, every pixel within 2 ulp of the true mean of the k specific camera frames.",
+  "As C04."),
 }
 
 NOT_YET = {
